@@ -2,7 +2,7 @@
 From stdpp Require Import gmap strings sorting.
 From Coq Require Import QArith.
 From EV Require Import Base.Str Model.Value Model.Keyspace Model.Reply Model.Prog Model.ZSetOps Model.ZSetMulti Model.CmdZSet Model.Dispatch.
-From EV Require Import Spec.SpecZSet Proofs.KeyspaceLemmas Proofs.ZSetPure Proofs.ZSetProofs.
+From EV Require Import Spec.SpecZSet Proofs.KeyspaceLemmas Proofs.ZSetPure Proofs.ZSetProofs Proofs.DispatchLemmas.
 Local Open Scope Z_scope.
 
 (** Commands covered: ZADD ZCARD ZSCORE ZMSCORE ZREM ZINCRBY ZCOUNT ZRANK ZREVRANK ZPOPMIN ZPOPMAX ZRANGE
@@ -192,8 +192,10 @@ Theorem C17_dispatch : forall w c argv h,
   exec_cmd w 0 argv =
   (let '(s', r) := exec_zset (conn_db w 0) argv (w_st w) in (World s' (w_conns w), r)).
 Proof.
-  intros w c argv h Hargv Hl Hha Hse Hh. unfold exec_cmd, exec_zset. rewrite Hargv.
-  unfold handler_of, first_some. cbn [fold_right]. rewrite Hl, Hha, Hse, Hh. by destruct (run_seq _ _ _).
+  intros w c argv h Hargv Hl Hha Hse Hh.
+  assert (Hho : handler_of (lower c) = Some h) by (rewrite handler_of_unfold, Hl, Hha, Hse, Hh; done).
+  destruct argv as [|c0 rest]; [discriminate|]. injection Hargv as ->.
+  rewrite (exec_cmd_runs_handler w 0 (c :: rest) c h eq_refl Hho). unfold exec_zset. by rewrite Hh.
 Qed.
 Print Assumptions C17_dispatch.
 
